@@ -908,6 +908,55 @@ func (c *evalCtx) callExpr(n *ECall) EV {
 				return EV{V: Val{Typ: types.Typ[types.Int], Terms: []*smt.Term{cx.Select(cx.Select(cnt, ref), x.V.Terms[0])}}}
 			}
 			return boolEV(cx.Op("bvsgt", smt.Bool, cx.Select(cx.Select(cnt, ref), x.V.Terms[0]), cx.BVLit64(0, 64)))
+		case "valof": // valof(x): the value of x as data - contents and length of a slice, entries of a map, x itself otherwise
+			a := c.eval(n.Args[0])
+			return EV{V: Val{Typ: nil, Terms: e.valueOf(c.st, a.V)}}
+		case "tokval": // tokval(x, i, y): the payload of token i of stream x, in the shape of valof(y)
+			a := c.eval(n.Args[0])
+			iv := c.eval(n.Args[1])
+			var idx *smt.Term
+			if iv.Lit != nil {
+				idx = cx.BVLit(iv.Lit, 64)
+			} else {
+				idx = cx.Extend(iv.V.Terms[0], 64, iv.Math || isSigned(iv.V.Typ))
+			}
+			tok := cx.Select(cx.Select(e.tokArr(c.st, tokT), streamKey(a.V)), idx)
+			shape := e.valueOf(c.st, c.eval(n.Args[2]).V)
+			var ts []*smt.Term
+			for k, t := range shape {
+				ts = append(ts, cx.App(fmt.Sprintf("tok.v%d.%s", k, sortTag(t.Sort)), t.Sort, tok))
+			}
+			return EV{V: Val{Typ: nil, Terms: ts}}
+		case "tokn", "tokpos": // token view (tokens.go): tokens written to / next token to read from a stream
+			a := c.eval(n.Args[0])
+			name := tokN
+			if id.Name == "tokpos" {
+				name = tokR
+			}
+			return EV{V: Val{Typ: types.Typ[types.Int], Terms: []*smt.Term{cx.Select(e.tokArr(c.st, name), streamKey(a.V))}}}
+		case "tokkind", "tokbv", "tokstr", "tokwin", "toklen", "toknil": // accessors of token i of a stream
+			a := c.eval(n.Args[0])
+			iv := c.eval(n.Args[1])
+			var idx *smt.Term
+			if iv.Lit != nil {
+				idx = cx.BVLit(iv.Lit, 64)
+			} else {
+				idx = cx.Extend(iv.V.Terms[0], 64, iv.Math || isSigned(iv.V.Typ))
+			}
+			tok := cx.Select(cx.Select(e.tokArr(c.st, tokT), streamKey(a.V)), idx)
+			switch id.Name {
+			case "tokkind":
+				return EV{V: Val{Typ: types.Typ[types.Int], Terms: []*smt.Term{cx.App("tok.kind", smt.BV(64), tok)}}}
+			case "tokbv":
+				return EV{V: Val{Typ: types.Typ[types.Uint64], Terms: []*smt.Term{cx.App("tok.bv", smt.BV(64), tok)}}}
+			case "tokstr":
+				return EV{V: Val{Typ: types.Typ[types.String], Terms: []*smt.Term{cx.App("tok.str", smt.Str, tok)}}}
+			case "tokwin":
+				return EV{V: Val{Typ: nil, Terms: []*smt.Term{cx.App("tok.win", bytesInner, tok)}}}
+			case "toklen":
+				return EV{V: Val{Typ: types.Typ[types.Int], Terms: []*smt.Term{cx.App("tok.len", smt.BV(64), tok)}}}
+			}
+			return boolEV(cx.App("tok.nil", smt.Bool, tok))
 		case "bigexact64", "bigexact32": // the *big.Float argument is exactly representable as a float64 / float32
 			a := c.eval(n.Args[0])
 			return boolEV(cx.App("bigfloat.exact"+id.Name[len("bigexact"):], smt.Bool, a.V.Terms[0]))
